@@ -174,6 +174,8 @@ class FromUnix(Op):
 class Since(Op):
     prop = PROP
     name = "since"
+    sibling = T.tp_sibling(1)
+    sibling_rate = 0.25
 
     def gen(self, rng, tier, boost):
         n = 600 * boost if tier == "quick" else 3000 * boost
